@@ -7,6 +7,7 @@ while the finding is `open` in known_findings.json, the model of the repaired co
 (coq/Generated/C16Variant.v is regenerated from that file by `regen()` on every run).
 
 ops:  0 w [arg]  POLL by waiter w      1 args…  NOTIFY      2 [k]  CLOSE      3 w  DROPW (task drops its future)
+      (combine: POLL w k with k = 1, 2, 3 runs a notifier's step INSIDE the inner poll, after its registration)
 obs:  code c0 c1 c2   (result code of the op; cumulative wake counts of waiters 0..2)
 """
 import itertools
@@ -22,7 +23,8 @@ SKIP = -9
 RULE = ("cases = op lists over POLL w [arg] / NOTIFY args / CLOSE / DROPW w for one protocol (selected in the CASE cfg); "
         "non-trivial = some waiter polls and, before it polls again or drops, a NOTIFY or CLOSE runs (a notifier meets a "
         "possibly registered sleeper), and the case also contains the opposite order (a NOTIFY/CLOSE before a POLL) or a "
-        "re-poll after the notification; distinct by hash of cfg + op list")
+        "re-poll after the notification (a POLL whose inner poll embeds a notifier's step -- combine_with kinds 1..3 -- "
+        "counts as both); distinct by hash of cfg + op list")
 
 TRUSTED_BASE = [
     "models coq/Model/Wakers.v are hand transcriptions of the Rust methods (one label = one lock-protected call, "
@@ -33,18 +35,24 @@ TRUSTED_BASE = [
 ]
 MODELLED = ("qbase: net/tx.rs SendWaker::{poll_wait_for,wake_by}; util/async_deque.rs AsyncDeque::{poll_pop,push_back,"
             "push_front,extend,close}; lib.rs + frame/io.rs Receiving::{poll,recv_frame,reset}; util/wakers.rs "
-            "WakerVec::{register,wake_all,drop}; param.rs Parameters::{poll_ready,recv_remote_params,"
+            "WakerVec::{register,wake_all,drop} and Wakers::{combine_with,to_waker,wake_all} over a mock event source (readiness "
+            "counter, one edge-triggered registration slot; inner polls that are throttled, or raced by an arriving datagram / "
+            "by poll_close between their registration and their return); param.rs Parameters::{poll_ready,recv_remote_params,"
             "initial_scid_from_peer_need_equal} + ArcParameters::{remote_ready,on_conn_error}; cid/remote_cid.rs "
             "CidCell::{borrow_cid,assign,retire}; packet/keys.rs KeysState::{poll,set,invalid}; sid/local_sid.rs "
             "LocalStreamIds::{poll_alloc_sid,increase_limit}. qrecovery: streams/raw.rs poll_open_bi_stream/on_conn_error; "
             "send/sender.rs + writer.rs + outgoing.rs (poll_ready/write/poll_flush/poll_shutdown, update_window, pick_up, "
             "on_data_acked, be_stopped, on_conn_error, abstract byte counts instead of SendBuf); recv/recver.rs + incoming.rs "
-            "+ reader.rs (in-order frames, FIN, RESET_STREAM, on_conn_error); crypto.rs send (poll_write, poll_flush, "
+            "+ reader.rs + streams/raw.rs (frames in order with at most one frame lost and retransmitted -- SizeKnown as a "
+            "resting state --, FIN, RESET_STREAM with a consistent / an illegal final size, on_conn_error); crypto.rs send (poll_write, poll_flush, "
             "on_data_acked) and recv (poll_read, recv). qdatagram: reader.rs poll_recv/recv_datagram/on_conn_error. "
             "qconnection: path/aa.rs AntiAmplifier (every atomic step), path/util.rs SendBuffer::{write,try_load_frames_into} "
             "(both locked steps) and RecvBuffer. NOT modelled: SendWakers::wake_all_by rotation over paths (each element "
             "is a SendWaker::wake_by), ArcOneRttKeys/ArcZeroRttKeys (same code shape as KeysState), the stream listener's "
-            "wakers, out-of-order stream frames (SizeKnown as a resting state), memory ordering of atomics")
+            "wakers, more than one hole in a stream's received data, memory ordering of atomics; combine_with is interleaved "
+            "with its notifiers at the steps a single thread can reach (before the call, inside the inner poll after its "
+            "registration, after the call) -- the window between the inner poll's return and a LATER statement of "
+            "combine_with is the same point in the order of lock-protected steps as the end of the inner poll")
 ASSUMPTIONS = [
     "std::sync::Mutex gives mutual exclusion; atomics are sequentially consistent (memory ordering not modelled)",
     "an object with one Waker slot is used by one task (the code panics or overwrites otherwise); such protocols are "
@@ -308,10 +316,15 @@ class AbsCryptoRecv(Abs):
 
 
 class AbsRecver(Abs):
-    # stream data readable, or the stream is finished / reset / the connection failed
+    # stream data readable, or the stream is finished / reset / the connection failed.
+    # One frame may be lost on the way (NOTIFY 2 len) and retransmitted later (NOTIFY 3): what arrives behind the
+    # hole is not readable, and a FIN behind the hole does not finish the stream before the hole is filled.
     def __init__(self):
         self.avail = 0
         self.ended = False
+        self.hole = 0
+        self.beyond = 0
+        self.fin = False
 
     def cond(self, w, arg):
         return self.ended or self.avail > 0
@@ -324,11 +337,27 @@ class AbsRecver(Abs):
         if self.ended:
             return
         if tag == 2:
-            self.ended = True
-        elif tag == 1:
-            self.avail += args[1]
-            if args[0] == 1:
+            if args[0] in (0, 1):
                 self.ended = True
+            # args[0] == 2: a RESET_STREAM that is a protocol violation changes nothing for the reader by itself
+            # (the connection error that follows is CLOSE 0)
+        elif tag == 1 and code == 0:
+            if args[0] in (0, 1):
+                if self.hole:
+                    self.beyond += args[1]
+                else:
+                    self.avail += args[1]
+                if args[0] == 1:
+                    self.fin = True
+                    if not self.hole:
+                        self.ended = True
+            elif args[0] == 2:
+                self.hole = args[1]
+            elif args[0] == 3:
+                self.avail += self.hole + self.beyond
+                self.hole = self.beyond = 0
+                if self.fin:
+                    self.ended = True
 
 
 class AbsKeys(Abs):
@@ -463,6 +492,49 @@ class AbsSb(Abs):
         return [(tag, args, code)]
 
 
+class AbsCombine(Abs):
+    # Wakers::combine_with over a shared event source: the source is ready (a datagram is queued) or the socket was
+    # closed; for a task whose inner poll was throttled (it woke the waker it was given and returned Pending without
+    # looking at the source): the source asked to be polled again
+    nested = {1: "throttled", 2: "arrival", 3: "close"}     # POLL kinds whose inner poll embeds a notifier's step
+    poll_wake_counts = True     # a Waker invoked during the poll itself is a pending wake of the polling task
+
+    def __init__(self):
+        self.ready = 0
+        self.closed = False
+        self.again = set()
+
+    def cond(self, w, arg):
+        if self.closed:
+            return True
+        if arg == 1:
+            return w in self.again
+        return self.ready > 0
+
+    def pre_poll(self, w, arg):
+        self.again.discard(w)
+
+    def on_poll(self, w, arg, code):
+        if self.closed:
+            return
+        if code == 1:
+            self.ready -= 1
+        elif code == 0 and arg == 1:
+            self.again.add(w)
+        elif code == 0 and arg == 2:
+            self.ready += 1
+        elif code == 0 and arg == 3:
+            self.closed = True
+
+    def on_op(self, tag, args, code):
+        if self.closed:
+            return
+        if tag == 2:
+            self.closed = True
+        elif tag == 1 and args[0] == 0:
+            self.ready += 1
+
+
 def _polls(ws, args=(None,)):
     out = []
     for w in ws:
@@ -504,8 +576,11 @@ PROTOS = {
             rich=[(0, [0]), (0, [1]), (0, [2]), (1, [1]), (1, [2]), (1, [3]), (1, [0]), (2, []), (3, [0]), (3, [1])]),
     10: dict(name="recver", stream="wakers_r", abs=AbsRecver, single=True,
              core=[(0, [0]), (1, [0, 3]), (1, [1, 2]), (2, [0])],
-            alpha=[(0, [0]), (1, [0, 3]), (1, [1, 2]), (2, [0]), (2, [1]), (3, [0])],
-             rich=[(0, [0]), (0, [1]), (1, [0, 3]), (1, [0, 0]), (1, [1, 2]), (1, [1, 0]), (2, [0]), (2, [1]), (3, [0])]),
+            alpha=[(0, [0]), (1, [0, 3]), (1, [1, 2]), (2, [0]), (2, [1]), (2, [2]), (3, [0])],
+             # a frame is lost and retransmitted: SizeKnown (FIN behind the hole) as a resting state
+             hole=[(0, [0]), (1, [0, 3]), (1, [1, 2]), (1, [2, 2]), (1, [3]), (2, [0]), (2, [1]), (2, [2])],
+             rich=[(0, [0]), (0, [1]), (1, [0, 3]), (1, [0, 0]), (1, [1, 2]), (1, [1, 0]), (1, [2, 2]), (1, [2, 5]), (1, [2, 0]),
+                   (1, [3]), (2, [0]), (2, [1]), (2, [2]), (3, [0])]),
     11: dict(name="crypto_send", stream="wakers_r", abs=AbsCryptoSend, single=True, finding="F24",
              core=[(0, [0, 0]), (0, [0, 1]), (1, [1]), (1, [2])],
             alpha=[(0, [0, 0]), (0, [0, 1]), (1, [0]), (1, [1]), (1, [2]), (3, [0])],
@@ -535,6 +610,12 @@ PROTOS = {
              core=[(0, [0]), (1, [0]), (1, [1]), (3, [0])],
             alpha=[(0, [0]), (1, [0]), (1, [1]), (3, [0])],
              rich=[(0, [0]), (0, [1]), (1, [0]), (1, [1]), (3, [0])]),
+    17: dict(name="combine", stream="wakers", abs=AbsCombine, xlen=4, clen=7,
+             core=[(0, [0, 0]), (0, [1, 0]), (0, [0, 1]), (0, [0, 2]), (1, [0]), (2, [])],
+            alpha=[(0, [0, 0]), (0, [1, 0]), (0, [0, 1]), (0, [1, 1]), (0, [0, 2]), (0, [1, 2]), (0, [0, 3]), (1, [0]), (1, [1]),
+                   (2, []), (3, [0])],
+             rich=[(0, [0, 0]), (0, [1, 0]), (0, [2, 0]), (0, [0, 1]), (0, [1, 1]), (0, [2, 1]), (0, [0, 2]), (0, [1, 2]),
+                   (0, [0, 3]), (0, [1, 3]), (0, [3, 0]), (0, [0, 4]), (1, [0]), (1, [1]), (1, [2]), (2, []), (3, [0]), (3, [1])]),
     16: dict(name="recvbuffer", stream="wakers_q", abs=AbsDeque, single=True,
              core=[(0, [0]), (1, [0, 5]), (2, []), (3, [0])],
             alpha=[(0, [0]), (1, [0, 5]), (2, []), (3, [0])],
@@ -579,18 +660,23 @@ def oracle(case, obs):
             if newc != counts:
                 return "skip[%s]: skipped op %d changed wake counts" % (name, k)
             continue
+        before = counts
         counts = newc
         parts = ab.expand(tag, args, code) if hasattr(ab, "expand") else [(tag, args, code)]
         for (ptag, pargs, pcode) in parts:
             if ptag == 0:
                 w = pargs[0]
                 arg = pargs[1] if len(pargs) > 1 else None
+                if hasattr(ab, "pre_poll"):
+                    ab.pre_poll(w, arg)
                 held = ab.cond(w, arg)
                 if held and pcode == 0:
                     return "unobserved[%s]: op %d waiter %d polled while its condition held and got Pending" % (name, k, w)
                 ab.on_poll(w, arg, pcode)
                 if pcode == 0:
-                    sleeping[w] = (k, newc[w], arg)
+                    # where the poll itself may hand the task's Waker to a notifier that runs before the poll returns
+                    # (combine_with), an invocation during the poll is a pending wake: count from before the poll
+                    sleeping[w] = (k, before[w] if getattr(ab, "poll_wake_counts", False) else newc[w], arg)
                 else:
                     sleeping.pop(w, None)
             elif ptag == 3:
@@ -647,6 +733,7 @@ def nontrivial(case):
     parked = set()
     notified_since = set()
     seen_notify = False
+    nested = getattr(PROTOS.get(int(case.cfg[0]) if case.cfg else 0, {}).get("abs"), "nested", {})
     for tag, args in ops:
         if tag == 0:
             w = args[0]
@@ -654,6 +741,11 @@ def nontrivial(case):
                 other = True
             parked.add(w)
             notified_since.discard(w)
+            if len(args) > 1 and args[1] in nested:
+                # the inner poll embeds a notifier's step: it meets every registered sleeper, this one included
+                seen_notify = True
+                met = True
+                notified_since |= parked
         elif tag == 3:
             parked.discard(args[0])
             notified_since.discard(args[0])
@@ -671,9 +763,38 @@ def hist(case):
     f = PROTOS.get(pid, {}).get("finding")
     lab = ["proto:%s" % name, "model:%s" % ("as-is" if f is None else "repaired(%s)" % f if f in FIXED else "as-is(%s open)" % f),
            "len:%s" % ("1-3" if len(case.ops) <= 3 else "4-8" if len(case.ops) <= 8 else "9+")]
+    nested = getattr(PROTOS.get(pid, {}).get("abs"), "nested", {})
     for t, a in case.ops:
         lab.append("op:%s:%s" % (name, ("poll", "notify", "close", "dropw")[t] if t < 4 else "?"))
+        if t == 0 and len(a) > 1 and a[1] in nested:
+            lab.append("op:%s:poll+%s-inside" % (name, nested[a[1]]))
+        if name == "recver" and t == 1 and a and a[0] in (2, 3):
+            lab.append("op:recver:%s" % ("frame-lost" if a[0] == 2 else "retransmit"))
+    if name == "recver":
+        lab.append("recver:%s" % _recver_shape(case.ops))
     return lab
+
+
+def _recver_shape(ops):
+    """which resting states of the receiver a case visits with a parked reader (generator visibility)"""
+    hole = fin = parked = False
+    seen = set()
+    for t, a in ops:
+        if t == 1 and a and a[0] == 2 and len(a) > 1 and a[1] > 0 and not hole and not fin:
+            hole = True
+        elif t == 1 and a and a[0] == 3:
+            hole = False
+        elif t == 1 and a and a[0] == 1:
+            fin = True
+        elif t == 0:
+            parked = True
+            if hole and fin:
+                seen.add("sizeknown")
+        elif t == 3:
+            parked = False
+        elif t == 2 and parked and hole and fin and "sizeknown" in seen:
+            seen.add("ended-in-sizeknown")
+    return "+".join(sorted(seen)) or "in-order"
 
 
 # --------------------------------------------------------------------------------------
@@ -687,6 +808,35 @@ def gen_exhaustive(pid, maxlen, prefix, key="alpha", minlen=1):
         for L in range(minlen, maxlen + 1):
             for seq in itertools.product(spec[key], repeat=L):
                 cases.append(mk_case("%s%s-%d" % (prefix, spec["name"], n), pid, seq, par))
+                n += 1
+    return cases
+
+
+def gen_directed(pid, maxlen, prefix):
+    """directed family `hole` (stream receiver): every op sequence over the alphabet with a lost / retransmitted frame
+    that does lose a frame -- the histories in which the receiver RESTS in a state that in-order delivery only passes
+    through (SizeKnown: FIN behind a hole), met there by every notifier (data, retransmission, RESET_STREAM, connection
+    error) with the reader parked or not"""
+    spec = PROTOS[pid]
+    if "hole" not in spec:
+        return []
+    lose = [op for op in spec["hole"] if op[0] == 1 and op[1][0] == 2]
+    cases = []
+    n = 0
+    for L in range(2, maxlen + 1):
+        for seq in itertools.product(spec["hole"], repeat=L):
+            if any(op in lose for op in seq[:-1]):
+                cases.append(mk_case("%s%s-%d" % (prefix, spec["name"], n), pid, seq))
+                n += 1
+    # the resting state as a START state: [lose; FIN] (SizeKnown), also with unread / read data in front of the hole,
+    # followed by every sequence one shorter
+    fin = [op for op in spec["hole"] if op[0] == 1 and op[1][0] == 1][:1]
+    data = [op for op in spec["hole"] if op[0] == 1 and op[1][0] == 0][:1]
+    poll = [op for op in spec["hole"] if op[0] == 0][:1]
+    for pre in ([lose[0]] + fin, data + [lose[0]] + fin, data + poll + [lose[0]] + fin):
+        for L in range(1, maxlen):
+            for seq in itertools.product(spec["hole"], repeat=L):
+                cases.append(mk_case("%s%s-%d" % (prefix, spec["name"], n), pid, list(pre) + list(seq)))
                 n += 1
     return cases
 
@@ -711,13 +861,16 @@ def gen_for(stream):
         for pid, spec in sorted(PROTOS.items()):
             if spec["stream"] != stream or (only is not None and pid not in only):
                 continue
+            xlen = spec.get("xlen", 5)
             if tier == "quick":
-                cases += gen_exhaustive(pid, 5, "x") + gen_random(rng, pid, 400, "r")
+                cases += gen_exhaustive(pid, xlen, "x") + gen_random(rng, pid, 400, "r")
+                cases += gen_directed(pid, 5, "h")
             else:
                 # every op sequence up to length 8 over the protocol's core alphabet (4-5 symbols), every sequence
                 # up to length 6 over the wider alphabet, and long random sequences over the widest one
-                cases += (gen_exhaustive(pid, 8, "c", key="core") + gen_exhaustive(pid, 6, "x")
+                cases += (gen_exhaustive(pid, spec.get("clen", 8), "c", key="core") + gen_exhaustive(pid, xlen + 1, "x")
                           + gen_random(rng, pid, 6000, "r"))
+                cases += gen_directed(pid, 6, "h")
         return cases
     return gen
 
